@@ -48,13 +48,30 @@ def match_known(known, v):
     return None
 
 
+def _env_int(name, default, lo=None, hi=None):
+    """Any value of the variable must work: integers as they are, anything else
+    through a hash."""
+    v = os.environ.get(name, "")
+    if not v.strip():
+        return default
+    try:
+        n = int(v.strip(), 0)
+    except ValueError:
+        import hashlib
+
+        n = int(hashlib.sha256(v.encode()).hexdigest()[:12], 16)
+    if lo is not None and hi is not None and not (lo <= n <= hi):
+        n = default
+    return n
+
+
 def parse_args(argv):
     ap = argparse.ArgumentParser()
     ap.add_argument("prop")
     ap.add_argument("--tier", default=os.environ.get("VERIF_TIER", "quick"))
     ap.add_argument("--replay")
     ap.add_argument("--runs", type=int)
-    ap.add_argument("--lanes", type=int, default=int(os.environ.get("VERIF_LANES", "16")))
+    ap.add_argument("--lanes", type=int, default=_env_int("VERIF_LANES", 16, lo=1, hi=64))
     ap.add_argument("--no-evidence", action="store_true")
     ap.add_argument("--no-shrink", action="store_true")
     ap.add_argument("--digests", help="write job digests to this file (determinism self-test)")
@@ -73,7 +90,7 @@ def main(argv=None):
         return 2
     env.reexec_if_needed()
     t_start = time.monotonic()
-    master_seed = int(os.environ.get("VERIF_SEED", "0") or 0)
+    master_seed = _env_int("VERIF_SEED", 0)
     sys.path.insert(0, env.VERIF)
     env.use_repo_sources()
     work = env.work_root()
@@ -173,6 +190,16 @@ def do_check(args, engine, lanes, prop, master_seed, t_start, ctx):
         return len(bad) >= 40  # enough to diagnose; the tree is broken anyway
 
     results = lanes.run(jobs, on_result=on_result, stop=stop)
+    # a run that hit the wall-clock watchdog is run again, alone, with five times
+    # the budget: slowness of a loaded machine is not a property of the code
+    slow = [i for i, r in enumerate(results) if r is not None and r.get("status") == "timeout"]
+    if slow:
+        log(f"{len(slow)} run(s) hit the watchdog; re-running them with a 5x budget")
+        for i in slow[:8]:
+            jobs[i] = dict(jobs[i], timeout=5 * jobs[i].get("timeout", ctx.get("timeout", 180)))
+            results[i] = lanes.run([jobs[i]])[0]
+            if results[i].get("status") == "ok":
+                bad.remove(i) if i in bad else None
     executed = [(j, r) for j, r in zip(jobs, results) if r is not None]
     search_s = time.monotonic() - t_search
     log(f"search: {len(executed)}/{len(jobs)} jobs in {search_s:.1f}s, {len(bad)} not ok")
@@ -206,6 +233,9 @@ def do_check(args, engine, lanes, prop, master_seed, t_start, ctx):
         j, r = items[0]
         if r.get("status") in ("timeout", "died"):
             r2 = lanes.run([j])[0]
+            if r.get("status") == "timeout" and r2.get("status") == "ok":
+                log(f"a run timed out even with the 5x budget but finished on another attempt: treated as slowness, not as a violation: {canon(j)[:200]}")
+                continue
             if r2.get("status") != r.get("status"):
                 log(f"HARNESS-ERROR run ended as {r.get('status')} once and {r2.get('status')} on re-run: {canon(j)[:400]}\n{r.get('stderr', '')[-1500:]}")
                 return 2
